@@ -146,6 +146,7 @@ class Names:
     """what the generator believes is defined: scalar variables, units, variables per unit"""
 
     def __init__(self, other=None):
+        self.ans = other.ans if other else "none"      # sort of the last result: "none", None (scalar) or a unit
         self.scalars = list(other.scalars) if other else []
         self.units = list(other.units) if other else []
         self.dimvars = {k: list(v) for k, v in other.dimvars.items()} if other else {}
@@ -162,7 +163,9 @@ class Names:
 
 def gen_atom(rng, names, sort):
     if rng.random() < 0.04:
-        return rng.choice(VARS + UNITS + [rng.randrange(1, 9)])      # chaos: may be a type error
+        return rng.choice(VARS + UNITS + ["ans", rng.randrange(1, 9)])      # chaos: may be a type error
+    if names.ans == sort and rng.random() < 0.25:
+        return rng.choice(["ans", "_"])              # the last result, when it has the wanted sort
     if sort is None:
         if names.scalars and rng.random() < 0.6:
             return rng.choice(names.scalars)
@@ -195,7 +198,9 @@ def gen_good_stmt(rng, names, mods):
             names.units.append(u)
             return ("unit", u)
     if r < 0.88:
-        return ("expr", gen_expr(rng, names)[0])
+        e, sort = gen_expr(rng, names)
+        names.ans = sort                              # an expression statement sets the last result
+        return ("expr", e)
     return ("print", gen_expr(rng, names)[0])
 
 
